@@ -287,6 +287,8 @@ R6_TABLE = [
     (r'\.map_or\(0, Bytes::len\)', '.vx_map_or_0_len()'),
     (r'\(\*cb\)\(', 'cb.vx_call('),
     (r'\|_\|', '|_vx0|'),
+    (r'\btopic\.is_empty\(\)', 'vx_str_is_empty(topic)'),
+    (r'\btopic\.bytes\(\)', 'vx_str_bytes(topic)'),
     (r'&src\.as_ref\(\)\[0\.\.4\] == MQTT', 'vx_starts_with_mqtt(src)'),
     (r'\bu8::from\(((?:self|will|pkt|publish)\.(?:no_local|retain_as_published|dup|retain|session_present))\)', r'vx_u8_from_bool(\1)'),
     (r'Box<dyn Fn\(([^()]*)\)>', r'VxBoxFn<(\1)>'),
@@ -952,11 +954,11 @@ def emit_fn(unit, loc, dlines, tmpl_where):
             if not mm:
                 raise Unsupported('%s: bad desugar_q %r' % (tmpl_where, s))
             sections.append(['desugar_q', mm.group(1), []])
-        elif head == 'sigsub':
-            mm = re.match(r'sigsub\s+`(.*)`\s*=>\s*`(.*)`\s*$', s)
+        elif head in ('sigsub', 'sigsub?'):
+            mm = re.match(r'sigsub\??\s+`(.*)`\s*=>\s*`(.*)`\s*$', s)
             if not mm:
                 raise Unsupported('%s: bad sigsub %r' % (tmpl_where, s))
-            sections.append(['sigsub', (mm.group(1), mm.group(2)), []])
+            sections.append(['sigsub', (mm.group(1), mm.group(2)), [], head.endswith('?')])
         elif head in ('requires', 'ensures', 'decreases', 'recommends', 'opens_invariants', 'no_unwind'):
             cur = [head, None, []]
             sections.append(cur)
@@ -1048,6 +1050,8 @@ def emit_fn(unit, loc, dlines, tmpl_where):
         if sec[0] == 'sigsub':
             a, b = sec[1]
             if a not in sig:
+                if len(sec) > 3 and sec[3]:
+                    continue
                 raise AnchorLost('%s: signature text `%s` not found' % (fn_id, a))
             sig = sig.replace(a, b)
             log.append(('SIG', a, b))
